@@ -21,7 +21,7 @@ type c16Val struct{ n int }
 //
 //verif:entry tier=quick,thorough
 //verif:also C04
-//verif:bound two segments with 4 slots; the probed key present with value A, present with a different value B, or absent; a second unrelated key present or not; old/new arguments drawn from {A, B, nil}; all key values
+//verif:bound two segments with 4 slots; the probed key present with value A, present with a different value B, or absent; a second unrelated key present or not; old argument drawn from {A, B, nil}, new value from {A, B, a fresh C} (so old == new is included); all key values
 func VerifC16_CASIdentity() {
 	a, b, c := &c16Val{1}, &c16Val{2}, &c16Val{3}
 	m := NewSegmentUInt64Map[any](4, 64)
@@ -52,13 +52,22 @@ func VerifC16_CASIdentity() {
 	case 1:
 		old = b
 	}
+	// the replacement may be the very value named as old (an idempotent
+	// refresh), the other known value, or a fresh one
+	var nw any = c
+	switch vChoice("new", 3) {
+	case 0:
+		nw = a
+	case 1:
+		nw = b
+	}
 	pre := cch.Len()
 	ov, ook := cch.Get(other)
 	if vBool("doSwap") {
-		swapped := cch.CompareAndSwap(k, old, c)
+		swapped := cch.CompareAndSwap(k, old, nw)
 		nv, nok := cch.Get(k)
 		if cur != nil && old == cur {
-			vAssert("swap-when-identical", swapped && nok && nv == c)
+			vAssert("swap-when-identical", swapped && nok && nv == nw)
 		} else {
 			vAssert("no-swap-otherwise", !swapped && nok == (cur != nil) && (!nok || nv == cur))
 		}
